@@ -18,6 +18,9 @@ fn op_list() -> Vec<String> {
     let mut v = ops_hash::hash_ops();
     v.push("h.poseidon".into());
     v.push("h.poseidon".into());
+    // sponge sequences (absorb / squeeze interleavings, empty absorbs) in a circuit built on PoseidonChip
+    v.push("sp.poseidon".into());
+    v.push("sp.poseidon".into());
     crate::ops::dev_filter(v)
 }
 
